@@ -47,3 +47,36 @@ package object
 //   early exit with an order-independent boolean result, not yet under contract: Map.Equals#1 Set.Equals#1
 //   calls into code without contracts (undecided): Map.Interface#1 AsObjects#1 FromGoType#1 MapConverter.To#1 StructConverter.To#1 GoType.attrMap#1 newGoType#1..#3
 //@ scan[C05.maploops.object] C05 maprange object: (*Map).Copy#1 (*Map).Update#1 (*Set).Union#1 (*Set).Union#2 (*Set).Intersection#1 (*Set).Difference#1 NewBuiltinsModule#1 NewBuiltinsModule#2 (*Map).SortedKeys#1 (*Set).SortedItems#1 Keys#1 (*Map).StringKeys#1 (*Map).Equals#1 (*Set).Equals#1 (*Map).Interface#1 AsObjects#1 FromGoType#1 (*MapConverter).To#1 (*StructConverter).To#1 (*GoType).attrMap#1 newGoType#1 newGoType#2 newGoType#3
+
+//@ scan[C12.realos.object] C12 extcalls os.*,os/exec.*,os/user.*,io/ioutil.*,path/filepath.Abs,path/filepath.Glob,path/filepath.Walk,path/filepath.WalkDir,path/filepath.EvalSymlinks,syscall.*,-os.Err*,-os.init,-syscall.init,-os/exec.init,-os/user.init:
+
+// ---- C12: the context helpers of package object add their own keys and keep every other key --------------------
+//@ func WithCallFunc
+//@ props C12
+//@ modifies nothing
+//@ ensures[C12.ctxkeys.call] result != nil && forallA(k, any, k != any(callFuncKey) ==> uf("ctx.val", any, result, k) == uf("ctx.val", any, ctx, k))
+//@ func WithSpawnFunc
+//@ props C12
+//@ modifies nothing
+//@ ensures[C12.ctxkeys.spawn] result != nil && forallA(k, any, k != any(spawnFuncKey) ==> uf("ctx.val", any, result, k) == uf("ctx.val", any, ctx, k))
+//@ func WithCloneCallFunc
+//@ props C12
+//@ modifies nothing
+//@ ensures[C12.ctxkeys.clonecall] result != nil && forallA(k, any, k != any(cloneCallKey) ==> uf("ctx.val", any, result, k) == uf("ctx.val", any, ctx, k))
+
+// A thread runs its callable with the context it was given.
+//@ func NewThread
+//@ trusted
+//@ requires[C12.ctx] ctx != nil && hasos(ctx)
+//@ modcomps H_ E_ M G_ C_
+
+// Fresh contexts in package object: only the Interface() methods of iterators (they drain an already opened
+// iterator; no OS lookup happens under them).
+//@ scan[C12.freshctx.object] C12 extcalls context.Background,context.TODO: (*FileIter).Interface (*IntIter).Interface (*ListIter).Interface (*MapIter).Interface (*SetIter).Interface (*SliceIter).Interface
+
+// Builtins are only ever called with a context that carries an OS (C12): the precondition is an obligation at
+// every call site under contract (vm.callObject); what a builtin does with it is covered by the module scans.
+//@ func (Callable).Call
+//@ trusted
+//@ requires[C12.ctx] ctx != nil && hasos(ctx)
+//@ modcomps H_ E_ M G_ C_
